@@ -15,6 +15,7 @@ import (
 	"runtime"
 	"sort"
 	"sync"
+	"syscall"
 	"sync/atomic"
 	"time"
 
@@ -30,6 +31,20 @@ type idErr struct {
 }
 
 func (e *idErr) Error() string { return fmt.Sprintf("%s:%d", e.kind, e.id) }
+
+// Unwrap / Timeout: a failed write may be a fault of the "temporary" class (EAGAIN, ECONNRESET, a timeout);
+// it is still a failed write: the frame did not reach the wire and must be reported once
+func (e *idErr) Unwrap() error {
+	switch e.id % 4 {
+	case 1:
+		return syscall.EAGAIN
+	case 2:
+		return syscall.ECONNRESET
+	}
+	return nil
+}
+func (e *idErr) Timeout() bool   { return e.kind == "write" && e.id%4 == 3 }
+func (e *idErr) Temporary() bool { return e.Timeout() }
 
 // request generator: emits the scripted requests, honouring ctx like the real generators do
 type scriptGen struct {
@@ -144,6 +159,10 @@ func (r *blockReader) ReadPacketData() ([]byte, *gopacket.CaptureInfo, error) {
 	return nil, nil, io.EOF
 }
 
+type noWait struct{}
+
+func (noWait) Take() time.Time { return time.Now() }
+
 type nopProc struct{}
 
 func (nopProc) ProcessPacketData([]byte, *gopacket.CaptureInfo) error { return nil }
@@ -185,7 +204,15 @@ func runCase(idx int, class string, n, cap int, reqs []req, cancelAt int, slow b
 	ctx, cancel := context.WithCancel(context.Background())
 	defer cancel()
 	src := scan.NewPacketSource(&scriptGen{reqs, cap}, scan.NewPacketMultiGenerator(filler, n))
-	engine := scan.NewPacketEngine(src, packet.NewSender(writer), packet.NewReceiver(reader, nopProc{}))
+	var pw packet.Writer = writer
+	if idx%2 == 1 {
+		// every other run: through the real rate-limit wrapper (as with --rate), limiter without waiting
+		pw = packet.NewRateLimitReadWriter(struct {
+			packet.Reader
+			packet.Writer
+		}{reader, writer}, noWait{})
+	}
+	engine := scan.NewPacketEngine(src, packet.NewSender(pw), packet.NewReceiver(reader, nopProc{}))
 	before := runtime.NumGoroutine()
 	done, errc := engine.Start(ctx, &scan.Range{})
 	var errs []string
